@@ -634,6 +634,315 @@ end DpapiNg.Gen
     return out
 
 
+# ---------------------------------------------------------------------------------------------
+# Decoder plans: an `unpack` classmethod that is a straight line of fixed-offset integer reads, a magic test,
+# `view = view[n:]` advances and `x = view[:n].tobytes()[.decode("utf-16-le")]` reads ending in `return Cls(kw=local, ...)` is
+# translated statement by statement into a `List Plan.Step` plus the keyword → local table; `Proofs/Plan.lean` proves the
+# hand-written unpack model is the interpretation of that plan.  Any other statement form is Unsupported (a broken obligation).
+def P(name, props, file, cls, model):
+    return dict(name=name, props=props, file=file, func=cls + ".unpack", kind="plan", loc=("plan",), model=model,
+                imports=["Proofs.Plan"], typ="List Plan.Step × List (String × String)")
+
+
+KERNELS += [
+    P("PlanEnvelope", ["C11", "C02"], "_gkdi.py", "GroupKeyEnvelope", "Gkdi.envelopePlan"),
+    P("PlanKeyId", ["C11", "C06", "C05"], "_blob.py", "KeyIdentifier", "Gkdi.keyIdPlan"),
+]
+
+
+def plan_steps(fn):
+    body = [st for st in fn.body if not (isinstance(st, ast.Expr) and isinstance(st.value, ast.Constant))]
+    if not body:
+        raise Unsupported("empty unpack")
+
+    def const_slice(node):
+        """view[a:b] with literal bounds → (a, b)"""
+        if not (isinstance(node, ast.Subscript) and isinstance(node.value, ast.Name) and node.value.id == "view" and isinstance(node.slice, ast.Slice)
+                and node.slice.step is None):
+            raise Unsupported(f"slice form {ast.unparse(node)[:60]}")
+        lo, hi = node.slice.lower, node.slice.upper
+        a = 0 if lo is None else lo.value if isinstance(lo, ast.Constant) and isinstance(lo.value, int) and lo.value >= 0 else None
+        b = hi.value if isinstance(hi, ast.Constant) and isinstance(hi.value, int) and hi.value >= 0 else None
+        if a is None or b is None:
+            raise Unsupported(f"slice bounds {ast.unparse(node)[:60]}")
+        return a, b
+
+    def tobytes_of(node):
+        """X.tobytes() → X"""
+        if isinstance(node, ast.Call) and isinstance(node.func, ast.Attribute) and node.func.attr == "tobytes" and not node.args and not node.keywords:
+            return node.func.value
+        raise Unsupported(f"expected .tobytes(): {ast.unparse(node)[:60]}")
+
+    def prefix_len(node, minus2):
+        """view[:n] (or view[: n - 2]) with a local name n → n"""
+        if not (isinstance(node, ast.Subscript) and isinstance(node.value, ast.Name) and node.value.id == "view" and isinstance(node.slice, ast.Slice)
+                and node.slice.lower is None and node.slice.step is None and node.slice.upper is not None):
+            raise Unsupported(f"prefix slice form {ast.unparse(node)[:60]}")
+        up = node.slice.upper
+        if minus2:
+            if not (isinstance(up, ast.BinOp) and isinstance(up.op, ast.Sub) and isinstance(up.left, ast.Name)
+                    and isinstance(up.right, ast.Constant) and up.right.value == 2):
+                raise Unsupported(f"text length {ast.unparse(up)[:60]}")
+            return up.left.id
+        if not isinstance(up, ast.Name):
+            raise Unsupported(f"length {ast.unparse(up)[:60]}")
+        return up.id
+
+    steps, ints = [], set()
+    first = body[0]
+    if not (isinstance(first, ast.Assign) and ast.unparse(first) == "view = memoryview(data)"):
+        raise Unsupported(f"first statement {ast.unparse(first)[:60]}")
+    for st in body[1:-1]:
+        if isinstance(st, ast.If):
+            # if view[a:b].tobytes() != cls.magic: raise ValueError(...)
+            t = st.test
+            if not (isinstance(t, ast.Compare) and len(t.ops) == 1 and isinstance(t.ops[0], ast.NotEq) and ast.unparse(t.comparators[0]) == "cls.magic"
+                    and not st.orelse and len(st.body) == 1 and isinstance(st.body[0], ast.Raise) and isinstance(st.body[0].exc, ast.Call)
+                    and ast.unparse(st.body[0].exc.func) == "ValueError"):
+                raise Unsupported(f"if statement {ast.unparse(t)[:60]}")
+            a, b = const_slice(tobytes_of(t.left))
+            steps.append(f".magic {a} {b}")
+            continue
+        if not (isinstance(st, ast.Assign) and len(st.targets) == 1 and isinstance(st.targets[0], ast.Name)):
+            raise Unsupported(f"statement {ast.unparse(st)[:60]}")
+        tgt, v = st.targets[0].id, st.value
+        if tgt == "view":
+            # view = view[n:]
+            if not (isinstance(v, ast.Subscript) and isinstance(v.value, ast.Name) and v.value.id == "view" and isinstance(v.slice, ast.Slice)
+                    and v.slice.upper is None and v.slice.step is None and v.slice.lower is not None):
+                raise Unsupported(f"advance {ast.unparse(st)[:60]}")
+            lo = v.slice.lower
+            if isinstance(lo, ast.Constant) and isinstance(lo.value, int) and lo.value >= 0:
+                steps.append(f".skip {lo.value}")
+            elif isinstance(lo, ast.Name) and lo.id in ints:
+                steps.append(f'.skipLen "{lo.id}"')
+            else:
+                raise Unsupported(f"advance by {ast.unparse(lo)[:60]}")
+            continue
+        if isinstance(v, ast.Call) and ast.unparse(v.func) == "int.from_bytes":
+            kws = {k.arg: k.value for k in v.keywords}
+            if not (len(v.args) == 1 and set(kws) == {"byteorder"} and isinstance(kws["byteorder"], ast.Constant) and kws["byteorder"].value == "little"):
+                raise Unsupported(f"from_bytes form {ast.unparse(v)[:70]}")
+            a, b = const_slice(v.args[0])
+            steps.append(f'.int "{tgt}" {a} {b}')
+            ints.add(tgt)
+            continue
+        if isinstance(v, ast.Call) and ast.unparse(v.func) == "uuid.UUID":
+            if not (not v.args and len(v.keywords) == 1 and v.keywords[0].arg == "bytes_le"):
+                raise Unsupported(f"UUID form {ast.unparse(v)[:60]}")
+            a, b = const_slice(tobytes_of(v.keywords[0].value))
+            steps.append(f'.uuid "{tgt}" {a} {b}')
+            continue
+        if isinstance(v, ast.Call) and isinstance(v.func, ast.Attribute) and v.func.attr == "decode":
+            if not (len(v.args) == 1 and not v.keywords and isinstance(v.args[0], ast.Constant) and v.args[0].value == "utf-16-le"):
+                raise Unsupported(f"decode form {ast.unparse(v)[:60]}")
+            n = prefix_len(tobytes_of(v.func.value), True)
+            if n not in ints:
+                raise Unsupported(f"length {n} is not a decoded integer")
+            steps.append(f'.text "{tgt}" "{n}"')
+            continue
+        n = prefix_len(tobytes_of(v), False)
+        if n not in ints:
+            raise Unsupported(f"length {n} is not a decoded integer")
+        steps.append(f'.bytes "{tgt}" "{n}"')
+    ret = body[-1]
+    if not (isinstance(ret, ast.Return) and isinstance(ret.value, ast.Call) and isinstance(ret.value.func, ast.Name) and not ret.value.args
+            and all(k.arg and isinstance(k.value, ast.Name) for k in ret.value.keywords)):
+        raise Unsupported("unpack does not end in `return Cls(kw=local, ...)`")
+    table = [f'("{k.arg}", "{k.value.id}")' for k in ret.value.keywords]
+    return steps, table, ret.value.func.id
+
+
+def generate_plan(k: dict) -> dict:
+    path = os.path.join(SRC, k["file"])
+    out = {"name": k["name"], "file": k["file"], "func": k["func"]}
+    try:
+        tree = ast.parse(open(path).read())
+        fn = find_function(tree, k["func"])
+        out["line"] = fn.lineno
+        steps, table, ctor = plan_steps(fn)
+        if ctor != k["func"].split(".")[0]:
+            raise Unsupported(f"unpack returns {ctor}(...)")
+        out["python"] = f"{k['func']}: {len(steps)} decoding steps, {len(table)} constructor keywords"
+    except (Unsupported, OSError, SyntaxError, ValueError, LookupError) as e:
+        out["status"] = "unsupported"
+        out["reason"] = f"{type(e).__name__}: {e}"
+        p = os.path.join(GEN_DIR, k["name"] + ".lean")
+        if os.path.exists(p):
+            os.remove(p)
+        return out
+    name = k["name"]
+    body = "([" + ",\n    ".join(steps) + "],\n   [" + ", ".join(table) + "])"
+    lean = f"""-- GENERATED by harness/extract.py from src/dpapi_ng/{k['file']}:{out['line']} ({k['func']}) — do not edit.
+import DpapiNg.Proofs.Plan
+namespace DpapiNg.Gen
+open DpapiNg DpapiNg.Plan
+
+def {name} : List Step × List (String × String) :=
+  {body}
+
+theorem {name}_eq : {name} = {k['model']} := by
+  decide
+
+end DpapiNg.Gen
+"""
+    os.makedirs(GEN_DIR, exist_ok=True)
+    p = os.path.join(GEN_DIR, name + ".lean")
+    old = open(p).read() if os.path.exists(p) else None
+    if old != lean:
+        with open(p, "w") as f:
+            f.write(lean)
+    out.update(status="generated", lean_path=p, lean_def=body.replace("\n    ", " ").replace("\n   ", " "), module=f"DpapiNg.Gen.{name}", sha=hashlib.sha256(lean.encode()).hexdigest()[:16])
+    return out
+
+
+
+# ---------------------------------------------------------------------------------------------
+# Field tables: a decoder of the form `view = memoryview(data); return cls(kw=<read at literal offsets>, ...)` is translated
+# keyword by keyword into a `List (String × Fields.Field)`; `Proofs/Fields.lean` proves the hand-written model of the decoder is
+# the left-to-right interpretation of that table.
+def F(name, props, file, func, model):
+    return dict(name=name, props=props, file=file, func=func, kind="fields", loc=("fields",), model=model,
+                imports=["Proofs.Fields"], typ="List (String × Fields.Field)")
+
+
+KERNELS += [
+    F("FieldsPduHeader", ["C12", "C14", "C16"], "_rpc/_pdu.py", "PDUHeader.unpack", "Rpc.headerFields"),
+    F("FieldsSecTrailer", ["C12", "C16", "C15"], "_rpc/_pdu.py", "SecTrailer.unpack", "Rpc.secTrailerFields"),
+    F("FieldsSyntaxId", ["C12"], "_rpc/_bind.py", "SyntaxId.unpack", "Rpc.syntaxFields"),
+    F("FieldsContextResult", ["C12", "C15"], "_rpc/_bind.py", "ContextResult.unpack", "Rpc.resultFields"),
+    F("FieldsResponse", ["C12", "C16", "C13"], "_rpc/_request.py", "Response._unpack", "Rpc.responseFields"),
+    F("FieldsFault", ["C12", "C15"], "_rpc/_pdu.py", "Fault._unpack", "Rpc.faultFields"),
+]
+
+
+def field_table(fn):
+    body = [st for st in fn.body if not (isinstance(st, ast.Expr) and isinstance(st.value, ast.Constant))]
+    if len(body) != 2 or ast.unparse(body[0]) != "view = memoryview(data)":
+        raise Unsupported("decoder is not `view = memoryview(data); return cls(...)`")
+    ret = body[1]
+    if not (isinstance(ret, ast.Return) and isinstance(ret.value, ast.Call) and ast.unparse(ret.value.func) == "cls" and not ret.value.args):
+        raise Unsupported("decoder does not end in `return cls(kw=..., ...)`")
+    params = {a.arg for a in fn.args.args}
+
+    def lit(n):
+        if n is None:
+            return None
+        if isinstance(n, ast.Constant) and isinstance(n.value, int) and not isinstance(n.value, bool) and n.value >= 0:
+            return n.value
+        raise Unsupported(f"offset {ast.unparse(n)[:40]}")
+
+    def view_slice(node):
+        if not (isinstance(node, ast.Subscript) and isinstance(node.value, ast.Name) and node.value.id == "view" and isinstance(node.slice, ast.Slice)
+                and node.slice.step is None):
+            raise Unsupported(f"slice form {ast.unparse(node)[:60]}")
+        return lit(node.slice.lower) or 0, lit(node.slice.upper)
+
+    def view_index(node):
+        if isinstance(node, ast.Subscript) and isinstance(node.value, ast.Name) and node.value.id == "view" and not isinstance(node.slice, ast.Slice):
+            return lit(node.slice)
+        return None
+
+    def from_bytes(node):
+        if isinstance(node, ast.Call) and ast.unparse(node.func) == "int.from_bytes":
+            kws = {k.arg: k.value for k in node.keywords}
+            if not (len(node.args) == 1 and set(kws) == {"byteorder"} and isinstance(kws["byteorder"], ast.Constant) and kws["byteorder"].value == "little"):
+                raise Unsupported(f"from_bytes form {ast.unparse(node)[:70]}")
+            a, b = view_slice(node.args[0])
+            if b is None:
+                raise Unsupported(f"open-ended integer {ast.unparse(node)[:60]}")
+            return a, b
+        return None
+
+    def read(e):
+        i = view_index(e)
+        if i is not None:
+            return f".byte {i}"
+        fb = from_bytes(e)
+        if fb:
+            return f".int {fb[0]} {fb[1]}"
+        if isinstance(e, ast.Name) and e.id in params:
+            return f'.param "{e.id}"'
+        if isinstance(e, ast.Call) and ast.unparse(e.func) == "uuid.UUID":
+            if e.args or len(e.keywords) != 1 or e.keywords[0].arg != "bytes_le":
+                raise Unsupported(f"UUID form {ast.unparse(e)[:60]}")
+            v = e.keywords[0].value
+            if not (isinstance(v, ast.Call) and isinstance(v.func, ast.Attribute) and v.func.attr == "tobytes" and not v.args):
+                raise Unsupported(f"UUID form {ast.unparse(e)[:60]}")
+            a, b = view_slice(v.func.value)
+            if b is None:
+                raise Unsupported("open-ended uuid")
+            return f".uuid {a} {b}"
+        if isinstance(e, ast.Call) and isinstance(e.func, ast.Attribute) and e.func.attr == "tobytes" and not e.args and not e.keywords:
+            a, b = view_slice(e.func.value)
+            if b is not None:
+                raise Unsupported(f"bounded bytes field {ast.unparse(e)[:60]}")
+            return f".rest {a}"
+        if isinstance(e, ast.Call) and isinstance(e.func, ast.Attribute) and e.func.attr == "unpack" and isinstance(e.func.value, ast.Name) \
+                and len(e.args) == 1 and not e.keywords:
+            a, b = view_slice(e.args[0])
+            if b is None:
+                raise Unsupported("open-ended sub-structure")
+            return f'.sub "{e.func.value.id}" {a} {b}'
+        if isinstance(e, ast.Call) and isinstance(e.func, ast.Name) and len(e.args) == 1 and not e.keywords:
+            i = view_index(e.args[0])
+            if i is not None:
+                return f'.enum "{e.func.id}" {i}'
+            fb = from_bytes(e.args[0])
+            if fb:
+                return f'.enumInt "{e.func.id}" {fb[0]} {fb[1]}'
+        raise Unsupported(f"field expression {ast.unparse(e)[:70]}")
+
+    rows = []
+    for k in ret.value.keywords:
+        if not k.arg:
+            raise Unsupported("**kwargs")
+        rows.append(f'("{k.arg}", {read(k.value)})')
+    return rows
+
+
+def generate_fields(k: dict) -> dict:
+    path = os.path.join(SRC, k["file"])
+    out = {"name": k["name"], "file": k["file"], "func": k["func"]}
+    try:
+        tree = ast.parse(open(path).read())
+        fn = find_function(tree, k["func"])
+        out["line"] = fn.lineno
+        rows = field_table(fn)
+        out["python"] = f"{k['func']}: cls(...) with {len(rows)} keyword reads"
+    except (Unsupported, OSError, SyntaxError, ValueError, LookupError) as e:
+        out["status"] = "unsupported"
+        out["reason"] = f"{type(e).__name__}: {e}"
+        p = os.path.join(GEN_DIR, k["name"] + ".lean")
+        if os.path.exists(p):
+            os.remove(p)
+        return out
+    name = k["name"]
+    body = "[" + ",\n   ".join(rows) + "]"
+    lean = f"""-- GENERATED by harness/extract.py from src/dpapi_ng/{k['file']}:{out['line']} ({k['func']}) — do not edit.
+import DpapiNg.Proofs.Fields
+namespace DpapiNg.Gen
+open DpapiNg DpapiNg.Fields
+
+def {name} : List (String × Field) :=
+  {body}
+
+theorem {name}_eq : {name} = {k['model']} := by
+  decide
+
+end DpapiNg.Gen
+"""
+    os.makedirs(GEN_DIR, exist_ok=True)
+    p = os.path.join(GEN_DIR, name + ".lean")
+    old = open(p).read() if os.path.exists(p) else None
+    if old != lean:
+        with open(p, "w") as f:
+            f.write(lean)
+    out.update(status="generated", lean_path=p, lean_def=body.replace("\n   ", " "), module=f"DpapiNg.Gen.{name}", sha=hashlib.sha256(lean.encode()).hexdigest()[:16])
+    return out
+
+
+
 def register(k: dict) -> None:
     KERNELS.append(k)
 
@@ -648,6 +957,10 @@ def generate(k: dict) -> dict:
         return generate_const(k)
     if k.get("kind") == "layout":
         return generate_layout(k)
+    if k.get("kind") == "plan":
+        return generate_plan(k)
+    if k.get("kind") == "fields":
+        return generate_fields(k)
     path = os.path.join(SRC, k["file"])
     out = {"name": k["name"], "file": k["file"], "func": k["func"]}
     try:
